@@ -1279,7 +1279,7 @@ def explore(chk, tier, model_ok, schema, search_mode=False):
         run.bump("stopped-before:" + step)
         run.message(ir2, "feature/" + m + "@" + step,
                     {"input": {"files": FEATURE_MODULES, "main": m, "stop_before_step": step}}, front_end=True)
-    n_random = 40 if quick else 600
+    n_random = 32 if quick else 300
     if search_mode:
         n_random = 60
     for i in range(n_random):
@@ -1311,12 +1311,12 @@ def explore(chk, tier, model_ok, schema, search_mode=False):
             if samples < 2 and jid.startswith("random/"):
                 chk.sample({"emb": files[main], "to_json_bytes": len(SER(ir).to_json())}, limit=4)
                 samples += 1
-            if not search_mode and (jid.startswith("feature/") or not quick or len([j for j in split_jobs if j["id"].startswith("random/")]) < 6):
+            if not search_mode and (jid.startswith("feature/") or len([j for j in split_jobs if j["id"].startswith("random/")]) < (6 if quick else 120)):
                 add_split(jid, files, main, materialize(files, "m%d" % len(split_jobs)))
             run.malformed(r, r.choice(ir.module[0].type) if ir.module[0].type and r.random() < 0.7 else ir.module[0],
                           4 if quick else 10)
         # partially processed IRs (before each front-end step): more shapes of the same classes
-        if jid.startswith("feature/") or r.random() < (0.15 if quick else 0.3):
+        if jid.startswith("feature/") or r.random() < (0.1 if quick else 0.3):
             for step in STEPS:
                 ir2, errors2, exc2 = compile_files(files, main, stop_before_step=step)
                 if exc2 is None and not errors2 and ir2 is not None:
@@ -1334,7 +1334,7 @@ def explore(chk, tier, model_ok, schema, search_mode=False):
     rs = common.rng("C18-synth")
     classes = irschema.ir_classes()
     stats = {}
-    n_synth = 700 if quick else 12000
+    n_synth = 700 if quick else 8000
     if search_mode:
         n_synth = 1500
     for i in range(n_synth):
